@@ -162,14 +162,22 @@ std::string state_json()
     if (vs[i].has_value())
     {
       rv const &v = *vs[i];
-      std::vector<int> elems(v.begin(), v.end());
+      // absurd sizes (a corrupted object) are logged as such instead of being walked
+      bool const sane = v.size() <= (1U << 20) && v.data_end() >= v.data() &&
+                        static_cast<std::size_t>(v.data_end() - v.data()) <= (1U << 20);
+      std::vector<int> elems;
       std::vector<int> idx;
-      for (std::size_t j = 0; j < v.size(); ++j) idx.push_back(v[j]);
+      if (sane)
+      {
+        elems.assign(v.begin(), v.end());
+        for (std::size_t j = 0; j < v.size(); ++j) idx.push_back(v[j]);
+      }
       auto loc = locate(v.data());
-      o.kv("elems", elems).kv("idx", idx).kv("size", v.size()).kv("cap", v.capacity()).kv("empty", v.empty());
-      o.kv("dist", static_cast<long>(v.data_end() - v.data()));
+      auto const clampz = [](std::size_t z) { return z > (1U << 30) ? static_cast<std::size_t>(1U << 30) : z; };
+      o.kv("elems", elems).kv("idx", idx).kv("size", clampz(v.size())).kv("cap", clampz(v.capacity())).kv("empty", v.empty());
+      { long d = static_cast<long>(v.data_end() - v.data()); if (d > (1L << 30)) d = 1L << 30; if (d < -(1L << 30)) d = -(1L << 30); o.kv("dist", d); }
       o.kv("blk", loc.first).kv("off", loc.second);
-      if (!v.empty()) o.kv("front", v.front()).kv("back", v.back());
+      if (sane && !v.empty()) o.kv("front", v.front()).kv("back", v.back());
     }
     vsj.el_raw(o.str());
   }
@@ -181,11 +189,17 @@ std::string state_json()
     if (bs[i].has_value())
     {
       buf &b = *bs[i];
-      std::vector<int> rd(b.begin(), b.end());
+      bool const sane = b.read_size() <= (1U << 20);
+      std::vector<int> rd;
       std::vector<int> idx;
-      for (std::size_t j = 0; j < b.read_size(); ++j) idx.push_back(b[j]);
+      if (sane)
+      {
+        rd.assign(b.begin(), b.end());
+        for (std::size_t j = 0; j < b.read_size(); ++j) idx.push_back(b[j]);
+      }
       auto loc = locate(b.read_data());
-      o.kv("read", rd).kv("idx", idx).kv("rsize", b.read_size()).kv("wsize", b.write_size());
+      auto const clampz = [](std::size_t z) { return z > (1U << 30) ? static_cast<std::size_t>(1U << 30) : z; };
+      o.kv("read", rd).kv("idx", idx).kv("rsize", clampz(b.read_size())).kv("wsize", clampz(b.write_size()));
       o.kv("rdist", static_cast<long>(b.read_data_end() - b.read_data()));
       o.kv("wdist", static_cast<long>(b.write_data_end() - b.write_data()));
       o.kv("wgap", static_cast<long>(b.write_data() - b.read_data_end()));
